@@ -35,8 +35,13 @@ impl<T> Global<T> {
 
 #[derive(Clone, Copy, PartialEq, Eq)]
 pub enum Timed {
+    /// the holder finished within the time-out (the hook has run it): lock acquired
     Acquire,
+    /// time-out; the holder is still running when the caller continues
     TimeOut,
+    /// time-out, and the holder finishes right after the attempt was given up - before the
+    /// caller executes its next instruction (the hook has run it): the attempt still fails
+    TimeOutHolderDone,
 }
 
 pub static VERIF_ON_BLOCK: Global<Option<fn()>> = Global::new(None);
@@ -88,7 +93,7 @@ impl<T: ?Sized> Mutex<T> {
                 Some(f) => f(),
                 None => Timed::TimeOut,
             };
-            if o == Timed::TimeOut || *self.held() {
+            if o != Timed::Acquire || *self.held() {
                 *VERIF_TIMEOUTS.get() += 1;
                 return None;
             }
@@ -109,7 +114,7 @@ impl<T: ?Sized> Mutex<T> {
                 Some(f) => f(),
                 None => Timed::TimeOut,
             };
-            if o == Timed::TimeOut || *self.held() {
+            if o != Timed::Acquire || *self.held() {
                 *VERIF_TIMEOUTS.get() += 1;
                 return None;
             }
